@@ -133,6 +133,19 @@ def run(ctx):
             ctx.violate(f"rotate_matrices by {m_steps} grid steps does not shift both indices of every matrix of the dict (or modifies its argument)", {**cj, "steps": m_steps}, {"kind": "rotate"})
         lines.append(f"rotshift {n} {qmat(M.real)} {m_steps}")
         meta.append(("rot", want.real, cj, 1.0))
+    # ---- the angle grid for *every* size: n angles, the first is -pi, evenly spaced by 2 pi / n, the last is below +pi
+    #      (the formula is evaluated in floating point: sizes at which a rounded quotient tips over matter, so none is skipped)
+    sizes = list(range(2, 600 if ctx.tier == "quick" else 3000))
+    for n in sizes:
+        th = scat.make_angles(n)
+        ok = (th.shape == (n,) and th[0] == -np.pi and th[-1] < np.pi and np.abs(th - (-np.pi + 2 * np.pi * np.arange(n) / n)).max() <= 8 * np.finfo(float).eps * np.pi)
+        if ok and n <= 64:
+            gi, go = scat.make_angles_grid(n)
+            ok = gi.shape == (n, n) and go.shape == (n, n) and np.array_equal(gi[0], th) and np.array_equal(go[:, 0], th)
+        if not ok:
+            ctx.violate(f"make_angles({n}) is not the grid of {n} angles -pi + 2 pi i / {n} (got {th.shape[0]} angles from {th[0]!r} to {th[-1]!r})", {"op": "make_angles", "n": n}, {"kind": "angle_grid"})
+            break
+    ctx.count("make_angles_sizes", len(sizes))
     # ---- representation: M[j, i] = S(inc_i, out_j)
     for _ in range(10 * ctx.scale):
         S = asym_func(rng)
